@@ -4,6 +4,7 @@ from props import porc_gen as pg
 
 ID = "C28"
 THEOREMS = [
+    "C28_write_tree", "C28_write_tree_git_partial",
     "C28_write_tree_flat_partial", "C28_write_tree_flat_git_partial", "C28_ita_refuted",
     "C28_rm_file_eq", "C28_rm_dir_missing_refuted", "C28_rm_untracked_dir_refuted",
     "C28_mv_eq_partial", "C28_mv_stat_refuted", "C28_mv_mkdir_refuted",
